@@ -19,6 +19,7 @@ CHECKS = {
     "C01": "checks.c01",
     "C02": "checks.c02",
     "C03": "checks.c03",
+    "C04": "checks.c04",
     "C05": "checks.c05",
     "C11": "checks.c11",
     "C07": "checks.c07",
@@ -36,8 +37,43 @@ CHECKS = {
 }
 
 
+def ensure_asan(clean=True):
+    """C04 runs against a sanitizer build: re-execute the interpreter with the ASan runtime and the
+    libcrypto shim preloaded (PYTHONMALLOC=malloc so that bytes objects get red zones)."""
+    if os.environ.get("VERIF_CFLAVOUR") == "asan":
+        return None
+    from sim import bootstrap
+
+    logdir = os.path.join(HERE, ".cache", "asan")
+    os.makedirs(logdir, exist_ok=True)
+    if clean:
+        for f in os.listdir(logdir):
+            try:
+                os.unlink(os.path.join(logdir, f))
+            except OSError:
+                pass
+    try:
+        env = bootstrap.asan_env(os.path.join(logdir, "log"))
+        for name in ("_crypto", "_buffer"):  # compile before the runtime is preloaded into everything
+            bootstrap.build_ext(name, "asan")
+    except Exception as e:
+        print("HARNESS-ERROR cannot set up the sanitizer environment: %r" % (e,))
+        return 2
+    os.execve(sys.executable, [sys.executable, os.path.join(HERE, "cli.py")] + sys.argv[1:], env)
+
+
 def main(argv):
     if len(argv) >= 2 and argv[0] == "--replay":
+        try:
+            import json
+
+            with open(argv[1]) as f:
+                if json.load(f).get("module", "").endswith("c04"):
+                    rc = ensure_asan(clean=False)
+                    if rc is not None:
+                        return rc
+        except (OSError, ValueError):
+            pass
         from sim import runner
 
         return runner.replay_file(argv[1])
@@ -52,6 +88,10 @@ def main(argv):
         print(__doc__)
         return 2
     prop = argv[0]
+    if CHECKS[prop].endswith("c04"):
+        rc = ensure_asan()
+        if rc is not None:
+            return rc
     tier = argv[1] if len(argv) > 1 else os.environ.get("VERIF_TIER", "quick")
     seed = int(os.environ.get("VERIF_SEED", "1"))
     from sim import runner
